@@ -517,19 +517,25 @@ fn get_fields(
                 let select = format!("{}->{}", js_field(&field.field.short_name), selector);
 
                 if let Some(val) = &field.field.default_value {
+                    //the selector applies to the default value of the rows that do not store the field
                     let default = match val {
                         ParamValue::Boolean(b) => b.to_string(),
                         ParamValue::Integer(i) => i.to_string(),
                         ParamValue::Float(f) => f.to_string(),
-                        ParamValue::String(s) => prepared_query.add_param(String::from(s), true),
-                        ParamValue::Binary(s) => prepared_query.add_param(String::from(s), true),
+                        ParamValue::String(s) => {
+                            format!("json({})", prepared_query.add_param(String::from(s), true))
+                        }
+                        ParamValue::Binary(s) => {
+                            format!("json({})", prepared_query.add_param(String::from(s), true))
+                        }
                         ParamValue::Null => unreachable!(),
                     };
                     q.push_str(&format!(
-                        "'{}', Ifnull({},{})",
+                        "'{}', Ifnull({},{})->{}",
                         &field.name(),
-                        select,
-                        default
+                        js_field(&field.field.short_name),
+                        default,
+                        selector
                     ))
                 } else {
                     q.push_str(&format!("'{}',{}", &field.name(), select))
